@@ -23,7 +23,8 @@
 (*             decimal rounded UP ([-1,0] = not finite).                                     *)
 (* TLC - not the harness - picks the entry meas[base][kref + 1] that belongs to the ridge     *)
 (* this module derives from (relative/absolute, estimate vs floor, attempts made), derives    *)
-(* the slack from the case's spectrum and that ridge, and evaluates Honest.  All invariants   *)
+(* the slack from the case's spectrum and that ridge, decides whether the case lies in the    *)
+(* numerical domain (cond <= 1e13) and evaluates Honest.  All invariants                       *)
 (* of InvRoot are evaluated on every state of every accepted prefix.                          *)
 (*                                                                                           *)
 (* Premise PI (eigh does not report its estimate): on the lattice spectra (eigenvalue ratios   *)
@@ -39,11 +40,11 @@ tvars == <<vars, tid, l, bad>>
 Ev  == Traces[tid].events
 Cfg == Traces[tid].cfg
 
-\* "symmetric": max|X - X^T| / max|X| within the same rounding slack 100 n p u cond(A + dI) the
+\* "symmetric": max|X - X^T| / max|X| within the same rounding slack SlackC n p u cond(A + dI) the
 \* numerical clause grants (u = 2^-53; 2^-24 >= 5.96e-8 under f32)
 U32Lo == <<596000000, -16>>
 SlackFor(c, d, lamUp) == IF c.dt = "f64" THEN Slack(c, d, lamUp)
-                         ELSE DMulDown(DMulDown(DFromInt(100 * c.n * c.p), U32Lo), CondLo(c, d, lamUp))
+                         ELSE DMulDown(DMulDown(DFromInt(SlackC * c.n * c.p), U32Lo), CondLo(c, d, lamUp))
 \* lambda_hat <= lambda_max: the report is float32 (2^-23); under f32 the input itself is
 \* rounded to float32, which moves lambda_max by up to n * 2^-24 <= 1e-6 relative: allow 1e-4
 LamBound(c) == IF c.dt = "f64" THEN F32Up(LamMax(c))
@@ -124,7 +125,8 @@ Verdict(e) ==
      ELSE "ok")
   ELSE IF e.a = "Gate" THEN
     (IF e.accepted # (figcls \in {"below", "zero"}) THEN "gate_disagrees_with_figure_class"
-     ELSE IF case.dt = "f64" /\ figcls = "below" /\ (case.method = "eigh" /\ base = "rel_lam" => e.pi) THEN
+     ELSE IF case.dt = "f64" /\ figcls = "below" /\ (case.method = "eigh" /\ base = "rel_lam" => e.pi)
+             /\ NumDomain(case, RidgeRef, LamUp) THEN
        LET col == e.meas[base]
            M == IF kref + 1 <= Len(col) THEN col[kref + 1] ELSE <<-1, 0>>
        IN IF M[1] = -1 THEN "accepted_root_residual_not_finite"
